@@ -1,10 +1,105 @@
 (* C04 - Up-to-date soundness: never skip a task whose last attempt did not succeed.
-   Statements only; proofs are in Fp/Proofs*.v and Fp/Refute.v. *)
+   Statements only; proofs are in Fp/ProofsC04.v (and Fp/Refute.v for the witnesses).
+
+   mon_C04 (Fp/Model.v) is the monitor cases.v evaluates on the behaviour of the real
+   binary: every "up to date" must be justified by the most recent attempt (normal or
+   forced run that got past the check: succeeded, failed, declined, killed) at the
+   present fingerprint having run all commands successfully, with generates present. *)
 From Coq Require Import List String NArith Bool.
 Import ListNotations.
-From TV Require Import Fp.Model Fp.Refute Extracted.Facts Run.FpCases.
+From TV Require Import Fp.Model Fp.ProofsSafe Fp.ProofsC04 Fp.ProofsPartial Fp.Refute Fp.Examples Extracted.Facts Run.FpCases.
 
 (* the shapes of the code the model hard-wires (dry wiring, call sites, rollback on a failing command ...) *)
 Theorem C04_shape_obligation : fp_shape_ok = true.
 Proof. vm_compute. reflexivity. Qed.
 Print Assumptions C04_shape_obligation.
+
+(* Full statement, for the repaired protocol (record invalidated when an attempt starts,
+   written after the last command succeeded, digest of the exact fingerprint): for every
+   glob matcher, every injective digest, every project whose tasks do not share a state
+   file, every history of file operations and invocations with every outcome
+   (fail at any command, prompt declined, killed at any command boundary, --force, --dry,
+   --status, --list --json ...). *)
+Theorem C04_sound :
+  forall (matchb : string -> path -> bool) (H : string -> string) (Hx : fpr -> string) (v : variant),
+    v_safe v = true -> v_fp_exact v = true -> v_ts_exact v = true -> v_listjson_dry v = true ->
+    (forall a b, Hx a = Hx b -> a = b) ->
+    forall (p : project) (s : state) (h : list event),
+      wf_proj p -> empty_store s ->
+      mon_C04 matchb p (snap_of s) (observe matchb H Hx v p s h) = true.
+Proof. exact c04_sound. Qed.
+Print Assumptions C04_sound.
+
+(* ... in particular for the variant the extracted facts say the tree is, once they say it is repaired *)
+Theorem C04_sound_current :
+  v_safe current = true -> v_fp_exact current = true -> v_ts_exact current = true -> v_listjson_dry current = true ->
+  forall (Hx : fpr -> string), (forall a b, Hx a = Hx b -> a = b) ->
+  forall (p : project) (s : state) (h : list event),
+    wf_proj p -> empty_store s ->
+    mon_C04 gmatch p (snap_of s) (observe gmatch idH Hx current p s h) = true.
+Proof. exact (fun a b c d Hx i => c04_sound gmatch idH Hx current a b c d i). Qed.
+Print Assumptions C04_sound_current.
+
+(* The code as it is.  Each lemma: as long as the extracted flag says the repair is absent,
+   the faithful model violates the monitor on the witness history (vm_compute). *)
+Theorem C04_timestamp_failure_refuted :      (* 7.4 *)
+  v_ts_rollback current = false -> v_safe current = false -> v_ts_exact current = false ->
+  exists p h, mon_C04 gmatch p (snap_of w_init) (observe gmatch idH hx1 current p w_init h) = false.
+Proof. exact (fun a b c => ex_intro _ _ (ex_intro _ _ (ts_failure_refuted current a b c))). Qed.
+Print Assumptions C04_timestamp_failure_refuted.
+
+Theorem C04_prompt_declined_refuted :        (* 7.5 *)
+  v_prompt_rollback current = false -> v_safe current = false ->
+  exists p h, mon_C04 gmatch p (snap_of w_init) (observe gmatch idH hx1 current p w_init h) = false.
+Proof. exact (fun a b => ex_intro _ _ (ex_intro _ _ (prompt_declined_refuted current Checksum a b method_cs_ne))). Qed.
+Print Assumptions C04_prompt_declined_refuted.
+
+Theorem C04_listjson_refuted :               (* 7.6 *)
+  v_listjson_dry current = false ->
+  exists p h, mon_C04 gmatch p (snap_of w_init) (observe gmatch idH hx1 current p w_init h) = false.
+Proof. exact (fun a => ex_intro _ _ (ex_intro _ _ (proj1 (listjson_refuted current Checksum a method_cs_ne)))). Qed.
+Print Assumptions C04_listjson_refuted.
+
+Theorem C04_killed_after_check_refuted :     (* 7.7 *)
+  v_safe current = false ->
+  exists p h, mon_C04 gmatch p (snap_of w_init) (observe gmatch idH hx1 current p w_init h) = false.
+Proof. exact (fun a => ex_intro _ _ (ex_intro _ _ (killed_refuted current Checksum a method_cs_ne))). Qed.
+Print Assumptions C04_killed_after_check_refuted.
+
+Theorem C04_key_collision_refuted :          (* normalizeFilename is not injective *)
+  exists p h, mon_C04 gmatch p (snap_of w_init) (observe gmatch idH hx1 current p w_init h) = false.
+Proof. exact (ex_intro _ _ (ex_intro _ _ (key_collision_refuted current Checksum method_cs_ne))). Qed.
+Print Assumptions C04_key_collision_refuted.
+
+(* What does hold for the code as it is (the check writes the record, a failing command removes
+   it): soundness for method checksum over every history in which no invocation is killed, the
+   tasks have no prompt and --list --json does not write, provided no two distinct fingerprints
+   of a task that occur collide under the digest (nocoll_run; for an injective hash: no collision
+   of the basename++content stream, cf. C05_stream_not_injective). *)
+Theorem C04_partial :
+  v_safe current = false -> v_force_records current = false ->
+  forall (matchb : string -> path -> bool) (H : string -> string) (Hx : fpr -> string)
+         (p : project) (s : state) (h : list event),
+    wf_cs_proj p -> cks s = [] ->
+    forallb (ev_c04_ok current) h = true ->
+    nocoll_run matchb H Hx current p (fs s) [] (observe matchb H Hx current p s h) = true ->
+    mon_C04 matchb p (snap_of s) (observe matchb H Hx current p s h) = true.
+Proof. exact (fun a b matchb H Hx => c04_partial matchb H Hx current a b). Qed.
+Print Assumptions C04_partial.
+
+Example C04_partial_example :
+  wf_cs_proj [w_task Checksum] /\
+  forallb (ev_c04_ok pinned) h_partial = true /\
+  nocoll_run gmatch idH hx1 pinned [w_task Checksum] (fs w_init) []
+             (observe gmatch idH hx1 pinned [w_task Checksum] w_init h_partial) = true /\
+  map o_res (observe gmatch idH hx1 pinned [w_task Checksum] w_init h_partial)
+  = [RFailed; ROk; RFile; RFailed; ROk; RSkipped].
+Proof. exact partial_example. Qed.
+
+(* non-vacuity of C04_sound: a two-task project meets wf_proj, and a 6-step history with a
+   failed, a killed and a successful attempt runs to the end in the repaired variant *)
+Example C04_example :
+  wf_proj [w_task Checksum; w_gen Timestamp] /\ empty_store w_init /\
+  map o_res (observe gmatch idH hx1 repaired [w_task Checksum; w_gen Timestamp] w_init h_example)
+  = [RFailed; ROk; RSkipped; RFile; RKilled; ROk].
+Proof. exact c04_example. Qed.
